@@ -488,6 +488,10 @@ def streams_for(prop, seed, tier, boost=1):
         add('dec-setters', genmod.dec_setter_stream(G('ds'), n=8 * k))
         add('raise-then-reference', genmod.raise_then_reference_stream())
         add('explicit-config', genmod.explicit_config_stream())
+        add('decoder-copies-keep-config', genmod.decoder_copies_keep_config_stream())
+        add('table-size-above-permitted', genmod.table_size_above_permitted_stream())
+        add('setters-via-table', genmod._via_table(genmod.dec_setter_stream(G('dsv'), n=8 * k)))
+        add('copies', genmod.copy_stream(G('cp')))
         add('utf8-limits', genmod.utf8_limit_stream())
         add('update-then-limit', genmod.update_then_limit_stream())
         add('small-sizes-allowed', genmod.small_sizes_allowed_stream())
@@ -533,6 +537,13 @@ def streams_for(prop, seed, tier, boost=1):
         if prop == 'C03':
             add('content-catalogue', genmod.content_catalogue_stream())
             add('length-collisions', genmod.length_collision_stream())
+            add('huffman-switch-kinds', genmod._huff_kinds(G('hk').enc_stream(n_conn=10 * k)))
+        ops_dg, _g = genmod.dict_dupkey_stream()
+        add('dict-and-generators', ops_dg)
+        add('dict-and-generators-debuglog', genmod.with_debug_log(ops_dg))
+        add('dict-subclasses', genmod._dict_kinds(ops_dg))
+        ops_pi, groups_pi = G('pih').api_stream(n=15 * k)
+        add('headers-deciding-indexable-per-instance', ops_pi, {'groups': groups_pi, 'env': {'HPACK_VERIF_HDRKIND': 'instance'}})
         ops_, groups_ = genmod.both_sensitivities_stream(G('bs'), n=6 * k)
         add('both-sensitivities', ops_)
     elif prop == 'C09':
@@ -554,6 +565,11 @@ def streams_for(prop, seed, tier, boost=1):
         if prop == 'C01':
             add('content-catalogue', genmod.content_catalogue_stream())
             add('length-collisions', genmod.length_collision_stream())
+            ops_dg, _g = genmod.dict_dupkey_stream()
+            add('dict-and-generators', ops_dg)
+            add('dict-and-generators-debuglog', genmod.with_debug_log(ops_dg))
+            add('dict-subclasses', genmod._dict_kinds(ops_dg))
+            add('huffman-switch-kinds', genmod._huff_kinds(G('hk').conn_stream(n_conn=8 * k)))
         add('enc-failing', genmod.enc_fail_stream(G('ef'), n=10 * k))
         add('ctor-options', genmod.ctor_options_stream(G('co2')), {'nocorr': True})
         add('conn-optimized', G('conno').conn_stream(n_conn=8 * k, start_id=900), {'env': {'PYTHONOPTIMIZE': '1'}})
@@ -629,11 +645,18 @@ def streams_for(prop, seed, tier, boost=1):
     # overridden): a random stream of the property once more, constructed that way (the model is the same)
     # the same idea for the interpreter: docstrings stripped and asserts off (-OO), warnings raised as errors
     oo = {'C11': lambda: G('ooi').int_stream(n_random=80) + genmod.int_call_forms_stream(),
-          'C12': lambda: G('ooh').henc_stream(n_random=60), 'C13': lambda: G('ood').hdec_stream(n_random=150) + genmod.huff_transition_catalogue()[::9],
+          'C12': lambda: G('ooh').henc_stream(n_random=60) + ['henc ' + genmod.hx(bytes((j * 7 + 3) % 256 for j in range(n_))) for n_ in (16384, 16385, 20000)], 'C13': lambda: G('ood').hdec_stream(n_random=150) + genmod.huff_transition_catalogue()[::9],
           'C06': lambda: G('oot').table_stream(n_tables=6 * k, n_ops=25), 'C14': lambda: G('oot').table_stream(n_tables=6 * k, n_ops=25),
           'C02': lambda: G('oodc').dec_stream(n_conn=12 * k, mal=0.3), 'C04': lambda: G('oodc').dec_stream(n_conn=12 * k, mal=0.5),
           'C05': lambda: G('oodc').dec_stream(n_conn=12 * k, mal=0.5), 'C07': lambda: G('oodc').dec_stream(n_conn=12 * k, mal=0.2),
           'C08': lambda: G('oodc').dec_stream(n_conn=12 * k, mal=0.2), 'C17': lambda: G('oodc').dec_stream(n_conn=8 * k, mal=0.2)}
+    if prop == 'C18':
+        ops_b, groups_b = G('bb').api_stream(n=20 * k)
+        add('no-asserts-no-docstrings-warnings-as-errors', ops_b, {'groups': groups_b, 'env': {'PYTHONOPTIMIZE': '2', 'HPACK_VERIF_WARNINGS': 'error', '_PYFLAGS': '-bb'}})
+        ops_dk, groups_dk = genmod.dict_dupkey_stream()
+        add('dicts-warnings-as-errors', ops_dk, {'groups': groups_dk, 'env': {'HPACK_VERIF_WARNINGS': 'error'}})     # (no -bb here: these dicts mix str and bytes keys of equal hash, which Python itself refuses under -bb)
+        ops_pi, groups_pi = G('pih').api_stream(n=15 * k)
+        add('headers-deciding-indexable-per-instance', ops_pi, {'groups': groups_pi, 'env': {'HPACK_VERIF_HDRKIND': 'instance'}})
     if prop not in ('C16', 'C18'):
         add('no-asserts-no-docstrings-warnings-as-errors', oo.get(prop, lambda: G('ooc').conn_stream(n_conn=8 * k))(),
             {'env': {'PYTHONOPTIMIZE': '2', 'HPACK_VERIF_WARNINGS': 'error', '_PYFLAGS': '-bb'}})
